@@ -19,6 +19,7 @@ import (
 	"net"
 	"path/filepath"
 	"sync"
+	"sync/atomic"
 	"time"
 )
 
@@ -71,6 +72,7 @@ type Raft struct {
 	newEntryCh chan *newEntry
 
 	closeOnce   sync.Once
+	served      int32 // set once Serve was called
 	closeReason error
 	close       chan struct{}
 	closed      chan struct{}
@@ -182,6 +184,7 @@ func (r *Raft) ListenAndServe(addr string) error {
 // is the advertised address, which should be reachable from other
 // nodes in the cluster.
 func (r *Raft) Serve(l net.Listener) error {
+	atomic.StoreInt32(&r.served, 1)
 	defer safeClose(r.closed)
 	if r.isClosed() {
 		return ErrServerClosed
@@ -425,6 +428,11 @@ func (r *Raft) doClose(reason error) {
 // the shutdown is complete, Shutdown returns the context's error, otherwise it returns nil
 func (r *Raft) Shutdown(ctx context.Context) error {
 	r.doClose(ErrServerClosed)
+	if atomic.LoadInt32(&r.served) == 0 {
+		// never served (a Serve that comes now returns at once): there is
+		// nothing to wait for
+		return nil
+	}
 	select {
 	case <-ctx.Done():
 		return ctx.Err()
